@@ -397,6 +397,16 @@ void c14_dubins_impl(vf::Tape & t, vf::Ctx & ctx, int K)
       for (int i = 0; i < 3; ++i)
         if (w.s[i] != 0 && (w.p[i] < 1e-7L || w.p[i] > TWO_PI - 1e-7L)) strict = false;
       consider(w, strict);
+      // CSC word with the same turning direction and a vanishing straight part: the two arcs merge into one arc of
+      // angle (t + q) mod 2pi (the individual angles are ill-defined there: the tangent direction of a zero-length
+      // straight is arbitrary)
+      if (w.s[0] == w.s[2] && w.s[1] == 0 && w.p[1] < 1e-6L) {
+        Word v = w;
+        v.p[0] = mod2pi(w.p[0] + w.p[2]);
+        if (v.p[0] > TWO_PI - 1e-6L) v.p[0] = 0;
+        v.p[2] = 0;
+        consider(v, false);
+      }
       // arc parameters within 1e-7 of 0 / 2pi may legitimately count either way
       for (int i = 0; i < 3; ++i)
         if (w.s[i] != 0 && w.p[i] > TWO_PI - 1e-6L) {
@@ -480,7 +490,12 @@ void c14_reparam(vf::Tape & t, vf::Ctx & ctx)
   } else if (kind == 1) {
     const auto d = gen_data<SE2d>(t, ctx, 3 + static_cast<int>(t.choice(8)), 10.0, 0.0);
     c = fit_spline(d.ts, d.gs, spline_specs::FixedDerCubic<SE2d, 2, 2>{});
-    how << "fit_spline cubic " << d.ts.size() << " pts";
+    how.precision(17);
+    how << "fit_spline cubic " << d.ts.size() << " pts ts=[";
+    for (auto v : d.ts) how << v << " ";
+    how << "] gs=[";
+    for (const auto & g : d.gs) how << show(g.coeffs()) << " ";
+    how << "]";
     ctx.label("reparam:fitted-cubic");
   } else {
     const int n = 1 + static_cast<int>(t.choice(5));
@@ -510,6 +525,7 @@ void c14_reparam(vf::Tape & t, vf::Ctx & ctx)
              << " start_vel=" << start_vel << " end_vel=" << end_vel << " N=" << N;
   }
   ctx.set_nontrivial(true);
+  if (std::getenv("VF_TRACE")) std::cerr << "TRACE " << ctx.desc.str() << std::endl;  // decoded case of an aborting replay
   const auto s = reparameterize_spline(c, vmin, vmax, amin, amax, start_vel, end_vel, N);
   const double T = s.t_max();
   ctx.require("duration finite and positive", std::isfinite(T) && T > 0, vf::str(T));
